@@ -104,6 +104,10 @@ type Driver struct {
 	Trace    []string
 	hot      []int
 	Err      error
+	// LateBlock: the server starts without a blocklist; d.Block is installed through
+	// SetIPBlockList at the first "block" event. Until then nothing is blocked.
+	LateBlock      bool
+	blockInstalled bool
 	// Answered records, from the driver's side only, who has answered one of the server's own
 	// queries with a matched reply (and under which ID).
 	Answered map[Pair]bool
@@ -114,7 +118,8 @@ const longDelay = int64(time.Hour)
 
 func NewDriver(r *gen.Rand, enforce bool, block *Blocklist, passive bool, opts ...func(*dht.ServerConfig)) (*Driver, error) {
 	cfg := dht.ServerConfig{NoSecurity: !enforce, Passive: passive}
-	if block != nil {
+	late := block != nil && r.Intn(3) == 0
+	if block != nil && !late {
 		cfg.IPBlocklist = block
 	}
 	if enforce {
@@ -123,7 +128,7 @@ func NewDriver(r *gen.Rand, enforce bool, block *Blocklist, passive bool, opts .
 	for _, o := range opts {
 		o(&cfg)
 	}
-	d := &Driver{R: r, Enforce: enforce, Block: block, Answered: map[Pair]bool{}}
+	d := &Driver{R: r, Enforce: enforce, Block: block, Answered: map[Pair]bool{}, LateBlock: late, blockInstalled: block != nil && !late}
 	// Outbound queries never time out by themselves (the driver cancels them when a scenario wants
 	// a failure), so that no verdict depends on answering within a wall-clock window.
 	d.delay.Store(longDelay)
@@ -148,6 +153,22 @@ func (d *Driver) newAddr() *net.UDPAddr {
 		d.Block.mu.Unlock()
 		if has {
 			return &net.UDPAddr{IP: net.IP{a, b, byte(d.R.Intn(256)), byte(1 + d.R.Intn(254))}, Port: d.R.Port()}
+		}
+	}
+	if d.Enforce && d.R.Intn(8) == 0 {
+		// private / loopback / link-local sources: BEP 42 exempts them, so any ID is acceptable there
+		u := d.R.Bytes(4)
+		switch d.R.Intn(4) {
+		case 0:
+			return &net.UDPAddr{IP: net.IP{10, u[1], u[2], u[3]}, Port: d.R.Port()}
+		case 1:
+			return &net.UDPAddr{IP: net.IP{192, 168, u[2], u[3]}, Port: d.R.Port()}
+		case 2:
+			return &net.UDPAddr{IP: net.IP{127, u[1], u[2], 1 + u[3]%250}, Port: d.R.Port()}
+		default:
+			ip := net.IP(d.R.Bytes(16))
+			ip[0], ip[1] = 0xfe, 0x80
+			return &net.UDPAddr{IP: ip, Port: d.R.Port()}
 		}
 	}
 	switch d.R.Intn(5) {
@@ -219,7 +240,9 @@ func (d *Driver) contact() Contact {
 	return c
 }
 
-func (d *Driver) blocked(ip net.IP) bool { return d.Block != nil && d.Block.Covers(ip) }
+func (d *Driver) blocked(ip net.IP) bool {
+	return d.Block != nil && d.blockInstalled && d.Block.Covers(ip)
+}
 
 func (d *Driver) eligible(c Contact, ro bool) bool {
 	if ro || d.blocked(c.UDP.IP) || c.ID == d.Root || c.ID == ([20]byte{}) {
@@ -511,8 +534,9 @@ func (d *Driver) Step(snap dht.VerifTableSnapshot) Event {
 		ev := Event{Kind: "block", Desc: fmt.Sprintf("blocklist += %v", c.UDP.IP)}
 		d.log(&ev)
 		d.Block.Add(c.UDP.IP)
-		if r.Bool() {
+		if r.Bool() || !d.blockInstalled {
 			d.N.S.SetIPBlockList(d.Block)
+			d.blockInstalled = true
 		}
 		return ev
 	default:
